@@ -24,15 +24,11 @@ package stdlibspec
 //@ spec func tsub(a time.Time, b time.Time) time.Duration = clamp64(ns(a) - ns(b)) # opaque
 //@ spec func satadd(a time.Duration, b time.Duration) time.Duration = clamp65(sext(a, 65) + sext(b, 65)) # opaque
 //@ spec func satsub(a time.Duration, b time.Duration) time.Duration = clamp65(sext(a, 65) - sext(b, 65)) # opaque
-//@ lemma tsub-mono-left: forall a time.Time, b time.Time, c time.Time :: ns(a) <= ns(b) ==> tsub(a, c) <= tsub(b, c)
-//@   reveal tsub
-//@ lemma tsub-mono-right: forall a time.Time, b time.Time, c time.Time :: ns(b) <= ns(c) ==> tsub(a, c) <= tsub(a, b)
+//@ lemma tsub-mono: forall a1 time.Time, b1 time.Time, a2 time.Time, b2 time.Time :: ns(a1) <= ns(a2) && ns(b2) <= ns(b1) ==> tsub(a1, b1) <= tsub(a2, b2)
 //@   reveal tsub
 //@ lemma tsub-sign: forall a time.Time, b time.Time :: (ns(a) <= ns(b) <==> tsub(a, b) <= 0) && (ns(a) < ns(b) <==> tsub(a, b) < 0)
 //@   reveal tsub
-//@ lemma satadd-mono-right: forall x time.Duration, y time.Duration, z time.Duration :: y <= z ==> satadd(x, y) <= satadd(x, z)
-//@   reveal satadd
-//@ lemma satadd-mono-left: forall x time.Duration, y time.Duration, z time.Duration :: y <= z ==> satadd(y, x) <= satadd(z, x)
+//@ lemma satadd-mono: forall x1 time.Duration, y1 time.Duration, x2 time.Duration, y2 time.Duration :: x1 <= x2 && y1 <= y2 ==> satadd(x1, y1) <= satadd(x2, y2)
 //@   reveal satadd
 //@ lemma satadd-nonneg: forall x time.Duration, y time.Duration :: x >= 0 && y >= 0 ==> satadd(x, y) >= x && satadd(x, y) >= y && satadd(x, y) == ite(x > 9223372036854775807 - y, 9223372036854775807, x + y)
 //@   reveal satadd
@@ -40,7 +36,7 @@ package stdlibspec
 //@   reveal satadd
 //@ lemma satsub-nonneg: forall x time.Duration, y time.Duration :: x >= 0 && y >= 0 ==> satsub(x, y) == x - y
 //@   reveal satsub
-//@ lemma satsub-mono: forall x time.Duration, y time.Duration, z time.Duration :: x <= y ==> satsub(x, z) <= satsub(y, z)
+//@ lemma satsub-mono: forall x1 time.Duration, z1 time.Duration, x2 time.Duration, z2 time.Duration :: x1 <= x2 && z2 <= z1 ==> satsub(x1, z1) <= satsub(x2, z2)
 //@   reveal satsub
 //@ spec const maxI64 = 9223372036854775807
 //@ spec const minI64 = -9223372036854775808
